@@ -1,7 +1,7 @@
 #!/venv/bin/python
 """Writes /verif/pinned/identifiers.json: recipes with the identifiers computed by the release in VERIF_REPO.
 
-Run once against a checkout of the pinned snapshot:
+Run against a checkout of the pinned snapshot (PIN_APPEND=<n> adds n recipes of the current generator to the file):
     git -C /repo worktree add /dev/shm/pin 406b0b9
     VERIF_REPO=/dev/shm/pin PYTHONPATH=/dev/shm/pin/src:/verif/lib /venv/bin/python tools/mkpinned.py
 Every entry is kept only if the independent reference encoder agrees with the release.
@@ -21,15 +21,19 @@ xpctx.quiet()
 import experimaestro  # noqa: E402
 
 print("pinning identifiers of", experimaestro.__file__)
-out = []
+# PIN_APPEND=<n>: keep what is pinned and add n recipes from the current generator (new input classes of the zoo)
+append = int(os.environ.get("PIN_APPEND", "0"))
+out = json.loads((HERE / "pinned" / "identifiers.json").read_text()) if append else []
+target = len(out) + append if append else 320
+label = f"pinned{len(out)}" if append else "pinned"
 feats = {}
 wd = Path(tempfile.mkdtemp(dir="/dev/shm"))
 with xpctx.stderr_to_devnull(), xpctx.dry_experiment(wd):
     seed = 0
     classes = recipes.Profile().root_classes
-    while len(out) < 320:
+    while len(out) < target:
         seed += 1
-        rng = random.Random(f"pinned-{seed}")
+        rng = random.Random(f"{label}-{seed}")
         rec = recipes.generate(rng, root_cls=classes[seed % len(classes)])
         if rec["kind"] == "task" and seed % 2:
             rec["steps"].append(["submit", rec["root"], []])
